@@ -22,10 +22,12 @@ pub struct Rec {
     pub raw_kind: u8, // 1 span 2 event 3 properties
     pub n_local: usize,
     pub has_props: bool,
+    pub begin: u64, // the submitted span's begin / end instants (raw clock values)
+    pub end: u64,
 }
 
 const TOK0: CollectTokenItem = CollectTokenItem { trace_id: TraceId(0), parent_id: SpanId(0), collect_id: 0, is_root: false, is_sampled: false };
-const REC0: Rec = Rec { forced: false, kind: 0, collect_id: 0, token_len: 0, tok: [TOK0; 3], set_kind: 0, span_id: SpanId(0), span_parent: SpanId(0), raw_kind: 0, n_local: 0, has_props: false };
+const REC0: Rec = Rec { forced: false, kind: 0, collect_id: 0, token_len: 0, tok: [TOK0; 3], set_kind: 0, span_id: SpanId(0), span_parent: SpanId(0), raw_kind: 0, n_local: 0, has_props: false, begin: 0, end: 0 };
 pub static mut LOG: [Rec; 8] = [REC0; 8];
 pub static mut NLOG: usize = 0;
 
@@ -47,6 +49,8 @@ fn record(forced: bool, cmd: CollectCommand) {
                     r.set_kind = 1; r.span_id = raw.id; r.span_parent = raw.parent_id;
                     r.raw_kind = match raw.raw_kind { RawKind::Span => 1, RawKind::Event => 2, RawKind::Properties => 3 };
                     r.has_props = raw.properties.is_some();
+                    r.begin = unsafe { std::mem::transmute::<fastant::Instant, u64>(raw.begin_instant) };
+                    r.end = unsafe { std::mem::transmute::<fastant::Instant, u64>(raw.end_instant) };
                 }
                 SpanSet::LocalSpansInner(ls) => { r.set_kind = 2; r.n_local = ls.spans.len(); if r.n_local > 0 { r.span_id = ls.spans[0].id; r.span_parent = ls.spans[0].parent_id; } }
                 SpanSet::SharedLocalSpans(ls) => { r.set_kind = 3; r.n_local = ls.spans.len(); }
@@ -72,8 +76,12 @@ pub fn stub_next_id() -> SpanId {
     SpanId(kani::any())
 }
 
+// the clock: any value except ZERO, which the code itself uses as the "not finished yet" sentinel
+// (a log of the reads kept in a static made unrelated harnesses report spurious pointer failures)
 pub fn stub_now() -> fastant::Instant {
-    unsafe { std::mem::transmute::<u64, fastant::Instant>(kani::any()) }
+    let v: u64 = kani::any();
+    kani::assume(v != 0);
+    unsafe { std::mem::transmute::<u64, fastant::Instant>(v) }
 }
 
 pub fn stub_ready() -> bool {
@@ -229,6 +237,7 @@ api_harness!(finish_submits_sampled_items_only, stub_ready, {
     let i1 = any_item();
     let i2 = any_item();
     let s = Span::new(vec![i1, i2], "s", None);
+    let begin_at_creation = unsafe { std::mem::transmute::<fastant::Instant, u64>(s.inner.as_ref().unwrap().raw_span.begin_instant) };
     let sid = id_of(&s);
     let own = SpanContext::from_span(&s).unwrap();
     kani::assert(own.trace_id == i1.trace_id && own.span_id == sid && own.sampled == i1.is_sampled,
@@ -247,6 +256,9 @@ api_harness!(finish_submits_sampled_items_only, stub_ready, {
         let first = if i1.is_sampled { i1 } else { i2 };
         kani::assert(b.tok[0] == first, "each_copy_names_its_parent: first sampled item unchanged");
         if expect == 2 { kani::assert(b.tok[1] == i2, "each_copy_names_its_parent: second item unchanged, order kept"); }
+        // C18: whatever is delivered was stamped by a clock read at creation and by one at finish
+        kani::assert(begin_at_creation != 0 && b.begin == begin_at_creation, "delivered_span_is_stamped_at_creation_and_at_finish: begin is the clock value read when the span was created");
+        kani::assert(b.end != 0, "delivered_span_is_stamped_at_creation_and_at_finish: end is a clock value read at finish, not the unset sentinel");
     }
 });
 
@@ -295,7 +307,7 @@ api_harness!(empty_parent_set, stub_ready, {
 // proves on the real function that, for one parent, it returns exactly what the model returns;
 // harnesses of functions that *call* enter_with_parent(name, self) then use the model as a stub.
 pub fn model_enter_with_parents<'a>(name: impl Into<std::borrow::Cow<'static, str>>, parents: impl IntoIterator<Item = &'a Span>) -> Span {
-    let mut token: Vec<CollectTokenItem> = Vec::new();
+    let mut token: Vec<CollectTokenItem> = Vec::with_capacity(4);
     for p in parents {
         if let Some(inner) = p.inner.as_ref() {
             let mut i = 0;
@@ -374,6 +386,48 @@ api_harness_m!(add_properties_handle, {
     } else {
         kani::assert(nlog() == 0, "unsampled_attachments_send_nothing: nothing sent");
     }
+    std::mem::forget(s);
+});
+
+// C06 "on each copy of a multi-parent span", C05 "only in its sampled parents' traces": the same two
+// routes for a span with two parents and every combination of sampling decisions
+fn check_two_parent_attachment(i1: CollectTokenItem, i2: CollectTokenItem, sid: SpanId, raw_kind: u8) {
+    let expect = (i1.is_sampled as usize) + (i2.is_sampled as usize);
+    if expect == 0 {
+        kani::assert(nlog() == 0, "unsampled_attachments_send_nothing: nothing sent when no parent is sampled");
+    } else {
+        kani::assert(nlog() == 1, "each_sampled_copy_receives_the_attachment: one command per attachment");
+        let e = rec(0);
+        kani::assert(e.kind == 4 && !e.forced && e.set_kind == 1 && e.raw_kind == raw_kind, "each_sampled_copy_receives_the_attachment: pseudo-span of the attachment's kind, lossy path");
+        kani::assert(e.token_len == expect, "each_sampled_copy_receives_the_attachment: one token item per sampled parent, whichever parent comes first");
+        let first = if i1.is_sampled { i1 } else { i2 };
+        kani::assert(e.tok[0].parent_id == sid && e.tok[0].trace_id == first.trace_id && e.tok[0].collect_id == first.collect_id && e.tok[0].is_sampled,
+            "attachment_is_parked_under_target_span: first item names the target span in the first sampled parent's trace");
+        if expect == 2 {
+            kani::assert(e.tok[1].parent_id == sid && e.tok[1].trace_id == i2.trace_id && e.tok[1].collect_id == i2.collect_id && e.tok[1].is_sampled,
+                "attachment_is_parked_under_target_span: second item names the target span in the second parent's trace");
+        }
+    }
+}
+
+api_harness_m!(add_event_handle_two_parents, {
+    let i1 = any_item();
+    let i2 = any_item();
+    let s = Span::new(vec![i1, i2], "s", None);
+    let sid = id_of(&s);
+    s.add_event(crate::Event::new("ev"));
+    check_two_parent_attachment(i1, i2, sid, 2);
+    std::mem::forget(s);
+});
+
+api_harness_m!(add_properties_handle_two_parents, {
+    let i1 = any_item();
+    let i2 = any_item();
+    let s = Span::new(vec![i1, i2], "s", None);
+    let sid = id_of(&s);
+    s.add_properties(|| [("k", "v")]);
+    check_two_parent_attachment(i1, i2, sid, 3);
+    if i1.is_sampled || i2.is_sampled { kani::assert(rec(0).has_props, "properties_travel_as_properties_pseudo_span: the pairs are carried"); }
     std::mem::forget(s);
 });
 
